@@ -32,4 +32,17 @@ OneEnd(t) == C(<<1, 2>>, 2, {<<1, 2>>}, t)
 \* quick tier: everything that shares one set of bounds, in one TLC run
 ConfsQ == {OneWay, BothWays, OneEnd(2), Indep2, Indep3, IndepEnd(2)}
 ConfsT == {OneWay, BothWays, BothEnd(2), BothEnd(3), Indep2, Indep3, IndepEnd(2)}
+
+\* ---- a fixed set of pre-run events (sensitivity run of "cancelled_run_skips_bound") ----
+\* partition 2: event 1 (t=0) may disarm the timer 3 (t=1, the last entry inside window 1), its next
+\* live event 4 is due at t=3; partition 1: event 2 (t=1) may send to partition 2 for t=2.
+\* TLC still chooses every handler result (outputs, cancels).
+P0(t, g) == [t |-> t, tgt |-> g, par |-> 0, cby |-> 0]
+InitTimers ==
+    /\ conf = OneWay /\ lat = [k \in {<<1, 2>>} |-> 1] /\ w = 1
+    /\ ev = <<P0(0, 2), P0(1, 1), P0(1, 2), P0(3, 2)>>
+    /\ InitRest
+\* only the model-building and reference phases: terminal states enumerate the programs
+NextProg == Next /\ phase' # "par"
+NextRun == Next /\ (phase = "build" => phase' = "seq")       \* no further pre-run events
 =============================================================================
